@@ -16,5 +16,5 @@ def conv(src,dst):
     if not os.path.exists(dst) or open(dst).read()!=s:
         open(dst,'w').write(s)
 conv('wip/WorldSpec.v','AV/Spec/WorldSpec.v')
-for f in ['WorldCore','WorldSplice','WorldRead','WorldMore','WorldDrain','WorldProofs','WorldFused','OwnHistory']:
+for f in ['WorldCore','WorldSplice','WorldRead','WorldMore','WorldDrain','WorldWrong','WorldProofs','WorldFused','OwnHistory']:
     conv('wip/%s.v'%f,'AV/Proofs/%s.v'%f)
